@@ -253,14 +253,16 @@ func runC12(c *core.Ctx) core.Meta {
 	}
 
 	// ---------------- R12.2 guarded-by ----------------
-	st2 := c.Rule("R12.2", "guarded-by (lockset on the CFG): every access to CommandQueue.commands / .listeners, Driver.contexts / .engineRunning, Context.queues happens while the paired mutex of the same object is held (constructors of fresh objects excepted)", 20)
+	st2 := c.Rule("R12.2", "guarded-by (lockset on the CFG): every access to CommandQueue.commands / .listeners, Driver.contexts / .engineRunning, Context.queues / .buffers happens while the paired mutex of the same object is held (constructors of fresh objects excepted)", 20)
 	guarded := map[string]string{
 		"CommandQueue.commands":  "commandsMutex",
 		"CommandQueue.listeners": "listenerMutex",
 		"Driver.contexts":        "contextMutex",
 		"Driver.engineRunning":   "engineRunningMutex",
 		"Context.queues":         "queueMutex",
+		"Context.buffers":        "buffersMutex",
 	}
+	entryHeld := entryLockNames(pd)
 	for _, fn := range pd.Funcs {
 		var ls map[ssa.Instruction]map[lockKey]bool
 		for _, b := range fn.Blocks {
@@ -282,7 +284,7 @@ func runC12(c *core.Ctx) core.Meta {
 					c.MarkAnalysed(fn)
 				}
 				st2.Instances++
-				held := ls[in][lockKey{fa.X, mu}]
+				held := ls[in][lockKey{fa.X, mu}] || entryHeld[fn][mu] // in the function, or at every call site of it
 				st2.Ob(held)
 				if held {
 					st2.Sample("%s: %s accessed under %s", core.FuncName(fn), core.ShortFieldID(f), mu)
@@ -791,6 +793,9 @@ func runC12(c *core.Ctx) core.Meta {
 			}
 		}
 	}
+
+	// ---------------- R12.10 thread-shared fields, discovered (c12shared.go) ----------------
+	checkSharedFields(c, pd)
 
 	return core.Meta{Level: "other",
 		Explanation: "Structural conditions whose absence is the lost wake-up, the data race or the reordering, decided on SSA of amd/driver: capacity of channels targeted by non-blocking sends, the subscribe/test/wait/re-test shape of the drain loop, a guarded-by lockset analysis for five field/mutex pairs, no mixed atomic/plain access, FIFO ownership of the command list, one command at a time per queue (start guard, IsRunning pairing), the frozen inventory of goroutines, selects, engine runs and signal receivers, and the hand-off between runAsync and runEngine (a run request recorded while the engine is flagged as running is honoured before the flag is cleared).",
